@@ -229,7 +229,7 @@ def main(pid, mod, tier, seed, replay_path=None):
             break
         rec = _jsonable(dict(f, property=pid, repo=boot.repo_head()))
         h = hashlib.sha1(json.dumps(rec, sort_keys=True).encode()).hexdigest()[:12]
-        d = os.path.join(VERIF, 'replays', pid)
+        d = os.path.join(VERIF, '.run', 'replays', pid) if os.environ.get('VERIF_NOEVIDENCE') else os.path.join(VERIF, 'replays', pid)
         os.makedirs(d, exist_ok=True)
         path = os.path.join(d, h + '.json')
         with open(path, 'w') as fh:
@@ -275,7 +275,8 @@ def main(pid, mod, tier, seed, replay_path=None):
         'wall_s': round(time.time() - t0, 2),
         'violations': len(viol_paths),
     }
-    write_evidence(pid, ev)
+    if not os.environ.get('VERIF_NOEVIDENCE'):
+        write_evidence(pid, ev)
     print('property=%s tier=%s states=%d transitions=%d traces=%d distinct_outcomes=%d exhaustive=%s violations=%d wall=%.1fs' % (
         pid, tier, total.states, total.transitions, total.traces, len(total.outcomes), not capped, len(viol_paths), time.time() - t0))
     return rc
